@@ -118,6 +118,7 @@ func (fx *FnCtx) doCallVals(st *State, fr *callFrame, site ssa.Instruction, cc *
 		if rt != nil {
 			res = st.freshVal(rt, "r")
 		}
+		fx.externalErrors(callee, rt, res)
 		k(st, res)
 		return
 	}
@@ -128,7 +129,47 @@ func (fx *FnCtx) doCallVals(st *State, fr *callFrame, site ssa.Instruction, cc *
 	if rt != nil {
 		res = st.freshVal(rt, "r")
 	}
+	fx.externalErrors(callee, rt, res)
 	k(st, res)
+}
+
+// externalErrors: a statically known function outside the module cannot return one of the module's own sentinel errors.
+func (fx *FnCtx) externalErrors(callee *ssa.Function, rt types.Type, res *Val) {
+	fx.externalErrorsK(callee, "", rt, res)
+}
+
+func (fx *FnCtx) externalErrorsK(callee *ssa.Function, key string, rt types.Type, res *Val) {
+	unexportedOnly := false
+	if callee == nil && strings.HasPrefix(key, "invoke ") && !strings.Contains(key, modulePath) {
+		// interface declared outside the module (net, io, transport, stun): assumption A13
+		unexportedOnly = true
+	} else if callee == nil || inRepo(callee) {
+		return
+	}
+	if res == nil || rt == nil {
+		return
+	}
+	var errs []string
+	if isErrorType(rt) {
+		errs = append(errs, res.S)
+	} else if tu, ok := rt.(*types.Tuple); ok {
+		for i := 0; i < tu.Len() && i < len(res.Fs); i++ {
+			if isErrorType(tu.At(i).Type()) {
+				errs = append(errs, res.Fs[i].S)
+			}
+		}
+	}
+	for _, e := range errs {
+		for name, id := range fx.eng.Sentinels {
+			if strings.HasPrefix(name, modulePath) {
+				base := name[strings.LastIndex(name, ".")+1:]
+				if unexportedOnly && (base[0] >= 'A' && base[0] <= 'Z') {
+					continue
+				}
+				fx.sol.Assert(tNot(tEq(e, fmt.Sprint(id))))
+			}
+		}
+	}
 }
 
 func (fx *FnCtx) unknownCode(st *State) {
@@ -385,6 +426,7 @@ func (fx *FnCtx) applyContract(st *State, fr *callFrame, site ssa.Instruction, k
 	}
 	env.st = st
 	bindResults(env, cc.Signature(), res)
+	fx.externalErrorsK(callee, key, rt, res)
 	feasibleBefore := fx.sol.Feasible()
 	for _, e := range con.Ensures {
 		fx.sol.Assert(env.evalBool(e.E))
